@@ -71,6 +71,13 @@ PolyTiny == {x \in [op : {"poly"}, pop : 1..9, bits : {8}, len : 1..5, lenpat : 
                /\ (PolyOps[x.pop] = "mul_basic" => x.lenpat = "eq")
                /\ (PolyOps[x.pop] \in {"middle", "inv", "from_roots"} => x.lenpat = "eq")}
 
+\* the quotient's (1+alpha)(1+beta) shortcut (taken when ceil(len/2) - 1 is a power of two) is guarded by the
+\* leading coefficients of BOTH series: every combination of leading coefficients (1 or a random unit) on the
+\* lengths 2^k + 1, 2^k + 2 and their neighbours, not thinned.  lead: "11", "1u", "u1", "uu" (p[0], q[0])
+QuotLens == <<2, 3, 4, 5, 6, 7, 9, 10, 11, 17, 18, 19, 33, 34, 35, 65, 66>>
+QuotLead == {x \in [op : {"polyq"}, bits : {2, 7, 12}, len : 1..17, lead : {"11", "1u", "u1", "uu"}, coef : {4, 5}, ntt : BOOLEAN] :
+               QuotLens[x.len] <= Cap(BitsSet[x.bits])}
+
 Name(x) ==
   CASE x.op = "fint" -> [op |-> "fint", N |-> x.N, fop |-> FIntOps[x.fop], pa |-> FPats[x.pa], pb |-> FPats[x.pb]]
     [] x.op = "conv_ss" -> [op |-> "conv_ss", N |-> ConvClasses[x.cls].N, logpack |-> ConvClasses[x.cls].logpack,
@@ -80,8 +87,10 @@ Name(x) ==
                              off |-> Offsets[x.off], lens |-> LenPats[x.lens], coef |-> Coefs[x.coef]]
     [] x.op = "poly" -> [op |-> "poly", pop |-> PolyOps[x.pop], bits |-> BitsSet[x.bits], len |-> PolyLens[x.len],
                          lenpat |-> x.lenpat, coef |-> Coefs[x.coef], ntt |-> x.ntt]
+    [] x.op = "polyq" -> [op |-> "poly", pop |-> "quot", bits |-> BitsSet[x.bits], len |-> QuotLens[x.len],
+                          lenpat |-> x.lead, coef |-> Coefs[x.coef], ntt |-> x.ntt]
 
-Init == s \in FInt \cup ConvSS \cup ConvNTT \cup Poly \cup PolyTiny
+Init == s \in FInt \cup ConvSS \cup ConvNTT \cup Poly \cup PolyTiny \cup QuotLead
 Next == UNCHANGED s
 Emit == PrintT(<<"SHAPE", ToJson(Name(s))>>)
 =============================================================================
